@@ -63,6 +63,7 @@ type ChainParams struct {
 	// Retry: regenerate with another sub-seed (at most 6 times) until this counter is non-zero
 	RetryUntil  string
 	GenesisOnly bool // directory with genesis records only (C13 stream)
+	DeferFinish bool // leave the chain open for the coverage phase of the run (the caller calls Finalize)
 }
 
 type ChainResult struct {
@@ -75,6 +76,17 @@ type ChainResult struct {
 	Seconds  float64
 	Bytes    int64
 	Meta     map[string]interface{}
+	// a run with a coverage phase (CLI) keeps the chain open until that phase is over: c.finish is then called by Finalize
+	c  *Chain
+	pr ChainParams
+}
+
+// Finalize writes meta.json / bls.txt / steps.txt of a chain whose finishing was deferred.
+func (res *ChainResult) Finalize() {
+	if res.c != nil {
+		res.c.finish(res, res.pr)
+		res.c = nil
+	}
 }
 
 // Generate builds one chain directory (retrying with further sub-seeds when pr.RetryUntil names a counter that stayed 0).
@@ -280,6 +292,10 @@ func generateOnce(pr ChainParams) (res ChainResult) {
 		} else {
 			res.Unmet = sc.Check(c)
 		}
+	}
+	if pr.DeferFinish {
+		res.c, res.pr = c, pr
+		return
 	}
 	c.finish(&res, pr)
 	return
